@@ -19,13 +19,13 @@ using verif::Tape;
 inline std::string num(double x) { char b[40]; snprintf(b, sizeof b, "%.17g", x); return b; }
 
 // star-shaped CCW polygon about the origin, radii in [rmin,rmax]
-inline manifold::SimplePolygon GenStar(Tape& t, int nMin, int nMax, double rmin, double rmax, std::ostream& d) {
+inline manifold::SimplePolygon GenStar(Tape& t, int nMin, int nMax, double rmin, double rmax, std::ostream& d, double jitter = 0.7) {
   int n = t.range(nMin, nMax);
   manifold::SimplePolygon p(n);
   d << "star" << n << "[";
   for (int i = 0; i < n; ++i) {
     double r = t.real(rmin, rmax);
-    double a = 2 * M_PI * (i + 0.15 + 0.7 * t.unit()) / n;
+    double a = 2 * M_PI * (i + 0.5 - jitter / 2 + jitter * t.unit()) / n;
     p[i] = vec2(r * std::cos(a), r * std::sin(a));
     d << (i ? "," : "") << num(p[i].x) << " " << num(p[i].y);
   }
@@ -87,7 +87,8 @@ inline Manifold GenPrimitive(Tape& t, std::ostream& d, int maxKind = 6) {
     }
     case 6: {
       d << "ExtrudeHole(";
-      auto outer = GenStar(t, 4, 8, 0.9, 1.3, d);
+      // outer inscribed radius >= 0.9*cos(1.3*pi/6) = 0.70 > hole radii
+      auto outer = GenStar(t, 6, 9, 0.9, 1.3, d, 0.3);
       auto hole = GenStar(t, 3, 6, 0.2, 0.6, d);
       std::reverse(hole.begin(), hole.end());
       double h = t.real(0.4, 1.5);
@@ -146,8 +147,7 @@ inline Manifold MakeIBox(const IBox& b, int how = 0) {
       return Manifold::Cube().Scale(size).Translate(lo);
     case 2: {  // rotate by 90 about z: (x,y)->(-y,x); size (sy,sx,sz), then shift
       Manifold c = Manifold::Cube(vec3(size.y, size.x, size.z)).Rotate(0, 0, 90);
-      // rotated box spans x in [-sx... wait handled below
-      return c.Translate(vec3(lo.x + size.x, lo.y, lo.z));
+            return c.Translate(vec3(lo.x + size.x, lo.y, lo.z));
     }
   }
 }
